@@ -2538,6 +2538,77 @@ def split_logic_unit():
                              Obl("C05/split/some-branch-activated", _split_post, when="any")])
 
 
+def _join_tracking_post(ctx):
+    """_update_join_tracking (first-of / quorum joins): every write goes to a stage row loaded by retrieve_stage AFTER the
+    previous (failed) write attempt -- a conflict is retried on fresh data, never on the stale object, and never on the
+    `downstream` object passed in; the write keeps the row's status (expected_phase = its loaded status) and the version it
+    presents is the loaded one; the completing stage's ref_id is in the stored _completed_branches."""
+    from pyvc.values import VAL, vlist_has_str  # noqa
+
+    I = ctx.I
+    goals = []
+    flat = list(T.flat(ctx.st.effects))
+    stores = [(n, e, g) for n, (e, g) in enumerate(flat) if e.kind == "standalone" and e.data["op"] == "store_stage"]
+    loads = {id(e.data["obj"]) if False else e.data["obj"].oid: n for n, (e, g) in enumerate(flat) if e.kind == "load" and e.data["kind"] == "stage"}
+    prev_store_pos = {}
+    for k_, (n, e, g) in enumerate(stores):
+        st_obj = e.data["args"][0]
+        ld = e.data.get("loaded") or {}
+        goals.append((f"store{k_}.row-was-loaded-by-retrieve_stage", z3.BoolVal(ld.get("how") == "retrieve_stage")))
+        lp = loads.get(st_obj.oid) if isinstance(st_obj, SObj) else None
+        earlier = [m for m, _e, _g in stores[:k_]]
+        goals.append((f"store{k_}.loaded-after-the-previous-attempt", z3.BoolVal(lp is not None and all(lp > m for m in earlier))))
+        if "status" in ld:
+            goals.append((f"store{k_}.keeps-the-status", z3.Implies(g, e.data["snap"]["status"].t == ld["status"].t)))
+            exp = e.data["kwargs"].get("expected_phase", SNone)
+            goals.append((f"store{k_}.expected-phase-is-the-loaded-status", z3.Implies(g, I.ops.eq(exp, I.enum_getattr(SEnum(WS, ld["status"].t), "name")))))
+    goals += [(f"version.{sfx}", gl) for sfx, gl in P.version_from_load(ctx)]
+    # no lost update: what is written under _completed_branches extends the list READ FROM THE ROW BEING WRITTEN (the fresh
+    # load of this attempt) -- every entry of that list is kept, in place -- and ends with the completing stage's ref_id
+    from pyvc.values import vlist_get, vlist_len
+
+    key = I.ops.lit("_completed_branches").t
+    ref = I.ops.to_val(I.getattr(ctx.args["stage"], "ref_id"))
+    j = z3.Int("branch_j")
+    for k_, (n, e, g) in enumerate(stores):
+        ld, snap = e.data.get("loaded") or {}, e.data["snap"]
+        if "ctx_vals" not in ld or "ctx_vals" not in snap:
+            goals.append((f"store{k_}.context-known", FALSE))
+            continue
+        old_has, old_v = z3.Select(ld["ctx_has"], key), z3.Select(ld["ctx_vals"], key)
+        new_has, new_v = z3.Select(snap["ctx_has"], key), z3.Select(snap["ctx_vals"], key)
+        old_len = z3.If(old_has, vlist_len(VAL.vl(old_v)), 0)
+        is_list = z3.Implies(old_has, VAL.is_VList(old_v))
+        goals.append((f"store{k_}.keeps-every-branch-recorded-in-the-row", z3.Implies(z3.And(g, is_list, j >= 0, j < old_len),
+                      z3.And(new_has, VAL.is_VList(new_v), vlist_get(VAL.vl(new_v), j) == vlist_get(VAL.vl(old_v), j)))))
+        goals.append((f"store{k_}.appends-the-completing-stage", z3.Implies(z3.And(g, is_list),
+                      z3.And(new_has, VAL.is_VList(new_v), vlist_len(VAL.vl(new_v)) == old_len + 1, vlist_get(VAL.vl(new_v), old_len) == ref))))
+    return goals
+
+
+def join_tracking_unit():
+    from pyvc.verify import Unit
+    from .common import STATUS_NAMES
+    from .hcommon import make_handler
+
+    def one_downstream(ctx):
+        # the loop over the downstream stages applies one body to each element independently (it carries no state from
+        # one downstream stage to the next): the contract is proved for an arbitrary downstream stage, i.e. for a list
+        # holding one symbolic element (the five retry attempts are unrolled)
+        d = T.new_symbolic(ctx.I, "StageExecution", "downstream")
+        ctx.extra["downstream"] = d
+        return ctx.I.ops.new_conc_list([d])
+
+    return Unit(prop="*", name="L3/CompleteStage._update_join_tracking",
+                func=H + "complete_stage.split_logic:CompleteStagesSplitMixin._update_join_tracking",
+                params=[("stage", ("obj", "StageExecution")), ("downstream_stages", one_downstream)],
+                self_type=lambda ctx: make_handler(ctx.I, H + "complete_stage.handler:CompleteStageHandler"),
+                names=STATUS_NAMES, registry=run_task_registry(), replayable=False, max_paths=20000,
+                obligations=[Obl("C07/retry-reloads/_update_join_tracking", _join_tracking_post, when="any"),
+                             Obl("C04/join-tracking/fresh-row-per-attempt", _join_tracking_post, when="any"),
+                             Obl("C06/frame/_update_join_tracking", _join_tracking_post, when="any")])
+
+
 def _should_skip_post(ctx):
     """a malformed stageEnabled condition never crashes the stage start: _should_skip returns a bool and never raises."""
     if ctx.exc is not None:
@@ -2804,3 +2875,4 @@ def jump_handle_unit():
 
 
 ALL.append(jump_handle_unit)
+ALL.append(join_tracking_unit)
